@@ -127,7 +127,10 @@ def yaml_load(stream):
 def json_load(value):
     import json
 
-    return json.loads(value)
+    try:
+        return json.loads(value)
+    except RecursionError as ex:
+        raise json.JSONDecodeError("Value nested too deeply", value, 0) from ex
 
 
 def toml_load(value):
